@@ -275,6 +275,9 @@ def generate(run_seed):
         run["indir"] = "dot"         # called from inside the input directory: "."
     if tool == "odmlconvert" and rng.random() < 0.35:
         run["chain"] = True      # second tool run: odmltordf over the result of the first
+    erng = seeds.Streams(run_seed).get("earlier-revision")
+    if tool == "formatconverter" and run["out"] == "given" and erng.random() < 0.3:
+        run["earlier_revision"] = True
     wrng = seeds.Streams(run_seed).get("warmup")
     if wrng.random() < 0.2:
         run["warmup"] = wrng.choice(["-r", "flat"])
@@ -353,6 +356,23 @@ def run_case(case):
         for d in case["dirs"]:
             os.makedirs(os.path.join(indir, d), exist_ok=True)
         materialise(odml, indir, case["tree"])
+        if run.get("earlier_revision") and tool == "formatconverter" and run["out"] == "given":
+            # a later session: an earlier run converted an earlier revision of the same files
+            # into the same output directory; the inputs were then put back from a backup (same
+            # names, other content, OLDER time stamps).  Each output has the content of its source
+            alt = [dict(f, doc_seed=f["doc_seed"] + 1) for f in case["tree"]]
+            materialise(odml, indir, alt)
+            try:
+                from odml.tools.converters.format_converter import FormatConverter as EFC
+                EFC.convert_dir(indir, given, run["recursive"], run["target"])
+            except (SystemExit, Exception):
+                pass
+            materialise(odml, indir, case["tree"])
+            long_ago = 946684800        # 2000-01-01
+            for dirpath, _, files_ in os.walk(indir):
+                for fn in files_:
+                    os.utime(os.path.join(dirpath, fn), (long_ago, long_ago))
+            env.capture.take()
         if run.get("warmup"):
             # the process has run the tool before, over the same tree, into a directory that is
             # gone again: a run does not depend on what earlier runs of the process have seen
@@ -481,7 +501,11 @@ def run_case(case):
         by_base = {f["base"]: f for f in case["tree"]}
         outputs = {}
         if vio is None:
-            for p in created:
+            # after an earlier revision was converted into the same directory, every file there
+            # is an output of this run (rewritten or, wrongly, left as it was)
+            rewritten = [p for p in sorted(after) if run.get("earlier_revision") and
+                         outcome[0] == "ret" and p.startswith("given_out/") and p not in created]
+            for p in created + rewritten:
                 if after[p][0] != "file":
                     continue
                 name = os.path.basename(p)
